@@ -25,7 +25,13 @@ OnPkt(s, e, i) ==
       prev == IF h.pid \in DOMAIN s.last THEN s.last[h.pid] ELSE NoCC
       counted == s.op # "packet" /\ HasPL(h)
       ok == (~counted) \/ prev = NoCC \/ h.cc = (prev + 1) % 16
-      s1 == IF counted THEN [s EXCEPT !.last = SetFn(s.last, h.pid, h.cc)] ELSE s
+      \* a packet without payload does not advance the counter (ISO 13818-1 2.4.3.3): it carries the value of the packet before it; when it is
+      \* the first packet of its PID, the payload packet after it carries that value plus one - what a receiver checks either way
+      afonly == s.op # "packet" /\ ~HasPL(h) /\ HasAF(h)
+      okaf == (~afonly) \/ prev = NoCC \/ h.cc = prev
+      s0 == RepIf(~okaf, s, [prop |-> "C05", kind |-> "adaptation-only-packet-counter", trace |-> s.tr, at |-> s.at, pkt |-> i, pid |-> h.pid,
+                             role |-> Role(h.pid), prev |-> prev, got |-> h.cc, op |-> s.op])
+      s1 == IF counted \/ (afonly /\ prev = NoCC) THEN [s0 EXCEPT !.last = SetFn(s.last, h.pid, h.cc)] ELSE s0
   IN RepIf(~ok, s1, [prop |-> "C05", kind |-> "cc-gap", trace |-> s.tr, at |-> s.at, pkt |-> i, pid |-> h.pid,
                      role |-> Role(h.pid), prev |-> prev, got |-> h.cc, after |-> s.after, bigaf |-> s.bigaf, op |-> s.op])
 
